@@ -49,12 +49,23 @@ func genSecret(r *rand.Rand) []byte {
 	default:
 		n = 2 + r.IntN(30)
 	}
+	var b []byte
 	if r.IntN(2) == 0 {
-		return randPrintable(r, n)
+		b = randPrintable(r, n)
+	} else {
+		b = randBytes(r, n)
+		if n > 2 && r.IntN(3) == 0 {
+			b[r.IntN(n)] = 0
+		}
 	}
-	b := randBytes(r, n)
-	if n > 2 && r.IntN(3) == 0 {
-		b[r.IntN(n)] = 0
+	// secrets that begin or end with white space / NUL / newline (a listener that normalises its secret is wrong)
+	if n >= 2 && r.IntN(5) == 0 {
+		ws := []byte{' ', '\t', '\n', '\r', 0}
+		if r.IntN(2) == 0 {
+			b[0] = ws[r.IntN(len(ws))]
+		} else {
+			b[n-1] = ws[r.IntN(len(ws))]
+		}
 	}
 	return b
 }
@@ -183,6 +194,11 @@ func otherSecrets(r *rand.Rand, s []byte) [][]byte {
 		}
 		out = append(out, rev)
 	}
+	for _, k := range []int{8, 16, 32, len(s) / 2} {
+		if k >= 1 && k < len(s) {
+			out = append(out, clone(s[:k]))
+		}
+	}
 	for _, bit := range []int{0, 5, 7} {
 		f := clone(s)
 		f[r.IntN(len(f))] ^= 1 << bit
@@ -283,6 +299,14 @@ func casesFor(r *rand.Rand, b *baseReq, secret []byte, thorough bool, yield func
 		binary.BigEndian.PutUint16(x[2:4], uint16(v))
 		refSign(x, 20, secret) // MD5(header | 0^16 | secret): what a clipping listener would compute
 		yield(&tcase{fam: "lenfield", d: x, base: d})
+	}
+	// fewer than 20 octets whose length field is consistent with what arrived (L <= len < 20)
+	for _, k := range []int{4, 5, 12, 19} {
+		for _, v := range []int{0, 4, k} {
+			x := clone(d[:k])
+			binary.BigEndian.PutUint16(x[2:4], uint16(v))
+			yield(&tcase{fam: "short-lenfield", d: x, base: d})
+		}
 	}
 	// authentic request + padding beyond L (RFC 2865: ignored): must be acted on exactly like the request
 	tails := [][]byte{{0}, randBytes(r, 3), forgedAttrs(r), randBytes(r, 300), make([]byte, 4096-n), randBytes(r, 4097-n), randBytes(r, 5000-n)}
